@@ -12,6 +12,7 @@ charge x isotope x applicable loss; numbering; carried modifications), (c) the p
 own sequence, (d) projection of the 'fragment' return type, (e) to_dict stability.
 """
 import copy
+import math
 import itertools
 import random
 import re
@@ -101,6 +102,9 @@ def gen_plan(S, index, tier):
     cfg = SP.swarm_cfg(S, maxlen=S.pick([3, 6, 12]), allow=allow, families=SP.MASSABLE, rare=False)
     if S.coin(0.5):
         cfg['p']['isotope'] = 0.0      # labelled peptides are a configuration of their own
+    if S.coin(0.06):
+        # magnitudes: a delta mass a double can barely hold (sums that go through a running total lose the small terms)
+        cfg['families'] = sorted(set(cfg['families']) | {'bigint'})
     sp = SP.gen_pep(S, cfg)
     fault_free = S.coin(0.25)
     faults = [] if fault_free else [f for f in ('poison', 'scribble', 'rng', 'reuse', 'interleave') if S.coin(0.5)]
@@ -634,7 +638,9 @@ def _do_frag(run, ev_i, ev):
         # m/z may be computed from the already rounded mass: allow one unit of the requested precision there
         tol_mz = tol if cfg['precision'] is None else 10 ** (-cfg['precision']) + 1e-6
         for what, gotv, expv, t in (('mass', f.mass, em, tol), ('mz', f.mz, ez, tol_mz), ('neutral_mass', f.neutral_mass, en, 1e-6)):
-            if abs(gotv - expv) > t:
+            # ... plus a few units in the last place of the numbers themselves (the same terms added in another order;
+            # only visible for magnitudes a double can barely hold)
+            if abs(gotv - expv) > t + 8 * math.ulp(max(abs(gotv), abs(expv))):
                 lab = 'labelled' if run.m.isotope else ('static' if run.m.static else 'plain')
                 if run.violation('MASS', opname, f"{what}-{lab}",
                                  f"MASS: ion {f.label} {f.sequence!r} ({'mono' if mono else 'avg'}, precision "
